@@ -20,7 +20,12 @@ pub enum Act {
     ExportAll(usize),
     /// (type, spelling index)
     ExportAllTo(usize, usize),
+    /// export_all_to a second, different directory (`elsewhere`) in the same process
+    ExportAllToOther(usize),
 }
+
+/// members of the second directory are kept in the same model set, offset by this
+pub const OTHER: usize = 1000;
 
 pub struct Config {
     pub env: &'static str,
@@ -60,6 +65,7 @@ pub struct World<'a> {
     pub singles: Vec<tsmodel::refmodel::Single>,
     pub cfg: &'a Config,
     pub all_spellings: bool,
+    pub second_dir: bool,
 }
 
 impl World<'_> {
@@ -110,6 +116,9 @@ impl World<'_> {
             for s in 0..ns {
                 v.push(Act::ExportAllTo(t, s));
             }
+            if self.second_dir {
+                v.push(Act::ExportAllToOther(t));
+            }
         }
         v
     }
@@ -122,6 +131,10 @@ impl World<'_> {
                 let sp = spellings(wd, d, self.all_spellings)[s].clone();
                 guarded(|| (self.uni[t].info.export_all_to)(Path::new(&sp)))
             }
+            Act::ExportAllToOther(t) => {
+                let sp = wd.join("elsewhere");
+                guarded(|| (self.uni[t].info.export_all_to)(&sp))
+            }
         }
     }
 
@@ -131,12 +144,24 @@ impl World<'_> {
                 model.insert(t);
             }
             Act::ExportAll(t) | Act::ExportAllTo(t, _) => model.extend(closure_of(self.uni, t)),
+            Act::ExportAllToOther(t) => model.extend(closure_of(self.uni, t).into_iter().map(|x| x + OTHER)),
         }
     }
 
     /// The tree of D expected for `model` on top of `initial`.
+    /// The tree expected in the second directory.
+    pub fn expected_other(&self, model: &BTreeSet<usize>) -> Tree {
+        let other: BTreeSet<usize> = model.iter().filter(|&&x| x >= OTHER).map(|x| x - OTHER).collect();
+        expected_tree(self.uni, &self.singles, &other, "")
+            .into_iter()
+            .map(|(k, v)| (k, Node::File(v.into_bytes())))
+            .collect()
+    }
+
     pub fn expected(&self, model: &BTreeSet<usize>, initial: &Tree) -> Tree {
         let mut t = initial.clone();
+        let model: BTreeSet<usize> = model.iter().copied().filter(|&x| x < OTHER).collect();
+        let model = &model;
         for (k, v) in expected_tree(self.uni, &self.singles, model, "") {
             // a file replaces an empty-directory marker of one of its ancestors
             let mut anc = Path::new(&k).parent();
@@ -153,6 +178,7 @@ impl World<'_> {
         match a {
             Act::Export(t) => format!("{}::export()", self.uni[t].info.rust),
             Act::ExportAll(t) => format!("{}::export_all()", self.uni[t].info.rust),
+            Act::ExportAllToOther(t) => format!("{}::export_all_to(\"<wd>/elsewhere\")", self.uni[t].info.rust),
             Act::ExportAllTo(t, s) => format!(
                 "{}::export_all_to({:?})",
                 self.uni[t].info.rust,
@@ -169,6 +195,7 @@ fn entry_mix(h: &[Act]) -> Vec<&'static str> {
             Act::Export(_) => "export",
             Act::ExportAll(_) => "export_all",
             Act::ExportAllTo(..) => "export_all_to",
+            Act::ExportAllToOther(..) => "export_all_to_other_dir",
         });
     }
     s.into_iter().collect()
@@ -205,6 +232,7 @@ pub fn run(args: &[String]) {
     let inits: Vec<&'static str> = vec!["empty", "stale", "previous"];
     let slice = arg_value(args, "--slice").map_or(Slice { i: 0, n: 1 }, |s| Slice::parse(&s));
     let all_spellings = args.iter().any(|a| a == "--all-spellings");
+    let second_dir = !args.iter().any(|a| a == "--one-dir");
     let max_states: usize = arg_value(args, "--max-states").map_or(usize::MAX, |s| s.parse().unwrap());
     let mut rep = Report::new("bfs");
     let uni = corpus::u::types();
@@ -232,6 +260,7 @@ pub fn run(args: &[String]) {
                 singles: singles.clone(),
                 cfg: &cfg,
                 all_spellings,
+                second_dir,
             };
             bfs_one(&w, depth, max_states, &mut scratch, &mut rep);
         }
@@ -297,10 +326,20 @@ fn bfs_one(w: &World, depth: usize, max_states: usize, scratch: &mut Scratch, re
                 c["check"] = json!("tree-vs-reference");
                 rep.violation(
                     c,
-                    json!({"history": hd, "model": model.iter().map(|&t| w.uni[t].info.rust).collect::<Vec<_>>(), "diff": diff_trees(&got, &exp), "registry": reg}),
+                    json!({"history": hd, "model": model.iter().filter(|&&t| t < OTHER).map(|&t| w.uni[t].info.rust).collect::<Vec<_>>(), "diff": diff_trees(&got, &exp), "registry": reg}),
                 );
             }
-            let gk = serde_json::to_string(&files_of(&got)).unwrap();
+            let got_other = snapshot(&wd.join("elsewhere"));
+            let exp_other = w.expected_other(&model);
+            if got_other != exp_other {
+                let mut c = class_base.clone();
+                c["check"] = json!("second-directory-tree-vs-reference");
+                rep.violation(
+                    c,
+                    json!({"history": hd, "model": model.iter().map(|&t| if t >= OTHER { format!("elsewhere:{}", w.uni[t - OTHER].info.rust) } else { w.uni[t].info.rust.to_string() }).collect::<Vec<_>>(), "diff": diff_trees(&got_other, &exp_other)}),
+                );
+            }
+            let gk = format!("{}|{}", serde_json::to_string(&files_of(&got)).unwrap(), serde_json::to_string(&files_of(&got_other)).unwrap());
             model_to_tree
                 .entry(model.iter().copied().collect())
                 .or_default()
@@ -332,7 +371,7 @@ fn bfs_one(w: &World, depth: usize, max_states: usize, scratch: &mut Scratch, re
         if trees.len() > 1 {
             rep.violation(
                 json!({"check": "same-set-different-tree", "env": w.cfg.env, "init": w.cfg.init}),
-                json!({"model": m.iter().map(|&t| w.uni[t].info.rust).collect::<Vec<_>>(), "distinct_trees": trees.len()}),
+                json!({"model": m.iter().map(|&t| if t >= OTHER { format!("elsewhere:{}", w.uni[t - OTHER].info.rust) } else { w.uni[t].info.rust.to_string() }).collect::<Vec<_>>(), "distinct_trees": trees.len()}),
             );
         }
     }
@@ -381,6 +420,7 @@ pub fn run_faults(args: &[String]) {
             singles: singles.clone(),
             cfg: &cfg,
             all_spellings: false,
+            second_dir: false,
         };
         // histories over a reduced action set: export / export_all / export_all_to(abs spelling)
         let (wd, d, _) = w.setup(&mut scratch);
